@@ -10,7 +10,8 @@ package setec
 //@ pred entryOK(s *Store, n string) { has(s.active.m, n) ==> (s.active.m[n] != nil && allocated(s.active.m[n]) && s.active.m[n].Secret != nil && allocated(s.active.m[n].Secret)) }
 //@ pred storeInv(s *Store) { s != nil && allocated(s) && s.active.m != nil && s.active.f != nil && s.active.w != nil && allocated(s.active.m) && allocated(s.active.f) && allocated(s.active.w) &&
 //@      s.timeNow != nil && s.logf != nil &&
-//@      (forall n string :: entryOK(s, n)) && (forall n string, k string :: (has(s.active.m, n) && has(s.active.m, k) && n != k) ==> s.active.m[n] != s.active.m[k]) && (forall n string :: has(s.active.f, n) ==> (has(s.active.m, n) && s.active.f[n] != nil)) && (forall n string :: has(s.active.w, n) ==> has(s.active.f, n)) }
+//@      (forall n string :: entryOK(s, n)) && (forall n string, k string :: (has(s.active.m, n) && has(s.active.m, k) && n != k) ==> s.active.m[n] != s.active.m[k]) && (forall n string :: has(s.active.f, n) ==> (has(s.active.m, n) && s.active.f[n] != nil)) && (forall n string :: has(s.active.w, n) ==> has(s.active.f, n)) && chansOK(s) }
+//@ pred chansOK(s *Store) { forall n string, j int :: (has(s.active.w, n) && 0 <= j && j < len(s.active.w[n])) ==> (s.active.w[n][j].ready != nil && allocated(s.active.w[n][j].ready) && chcap(s.active.w[n][j].ready) == 1 && chlen(s.active.w[n][j].ready) >= 0 && chlen(s.active.w[n][j].ready) <= 1) }
 //@ pred sameEntries(s *Store) { forall n string :: has(s.active.m, n) == old(has(s.active.m, n)) && (has(s.active.m, n) ==> (s.active.m[n] == old(s.active.m[n]) && s.active.m[n].Secret == old(s.active.m[n].Secret))) }
 //@ pred handlesKept(s *Store) { forall n string :: old(has(s.active.f, n)) ==> (has(s.active.f, n) && s.active.f[n] == old(s.active.f[n])) }
 
@@ -58,18 +59,6 @@ package setec
 //@   ensures [C16 lookup.gate] (!old(has(s.active.m, name)) && !s.allowLookup) ==> (sec == nil && err != nil && net == old(net) && sameEntries(s))
 //@   ensures [C16 lookup.known-no-request] old(has(s.active.m, name)) ==> (sec != nil && err == nil && net == old(net) && sameEntries(s))
 //@   ensures [C12 lookup.inv] storeInv(s) && !s.active.Mutex && handlesKept(s) && valuesKept(s)
-//@ func (*Store).run(s, ctx, interval, done)
-//@   ensures true
-//@ func (*Store).Refresh(s, ctx) (err)
-//@   ensures true
-//@ func (*Store).lookupWatcher(s, ctx, name) (w, err)
-//@   ensures true
-//@ func (watcher).notify(w)
-//@   ensures true
-//@ func NewFileClient(path) (fc, err)
-//@   ensures true
-//@ func do(ctx, c, path, req) (resp, err)
-//@   ensures true
 
 // ---- cache ---------------------------------------------------------------------------------
 // the document written is the whole active map
@@ -96,7 +85,7 @@ package setec
 //@   ensures [C16 lookupfn.one-request] net == old(net) + 1
 //@   ensures [C13 lookupfn.flushed] (err == nil && s.cache != nil) ==> cacheWrites == old(cacheWrites) + 1
 //@   ensures [C12 shared lookupfn.inv] storeInv(s) && !s.active.Mutex && handlesKept(s)
-//@   ensures [C12 shared lookupfn.values-kept] forall n string :: (n != name && old(has(s.active.m, n))) ==> (has(s.active.m, n) && s.active.m[n].Secret == old(s.active.m[n].Secret))
+//@   ensures [C12 shared lookupfn.values-kept] forall n string :: (n != name && old(has(s.active.m, n))) ==> (has(s.active.m, n) && s.active.m[n] == old(s.active.m[n]) && s.active.m[n].Secret == old(s.active.m[n].Secret) && s.active.m[n].Declared == old(s.active.m[n].Declared))
 //@   ensures [C12 lookupfn.others-kept] forall n string :: n != name ==> (has(s.active.m, n) == old(has(s.active.m, n)) && (has(s.active.m, n) ==> s.active.m[n].Secret == old(s.active.m[n].Secret)))
 //@   ensures [C16 lookupfn.ran] ran
 //@   at call Get: assert [C12 lookupfn.no-request-under-lock] !s.active.Mutex
@@ -162,6 +151,7 @@ package setec
 //@   ensures [C19 apply.drops-only-marked-unreferenced] forall n string :: (old(has(s.active.m, n)) && !has(s.active.m, n)) ==> (has(updates, n) && updates[n] == nil && !has(s.active.f, n))
 //@   ensures [C11,C19 apply.drops-marked] forall n string :: (has(updates, n) && updates[n] == nil && !old(has(s.active.f, n))) ==> !has(s.active.m, n)
 //@   ensures [C19 apply.flags-kept] forall n string :: has(s.active.m, n) ==> (s.active.m[n].Declared == old(s.active.m[n].Declared) && s.active.m[n].LastAccess == old(s.active.m[n].LastAccess))
+//@   ensures [C15 apply.watchers-notified-after-install] forall n string, j int :: (has(updates, n) && updates[n] != nil && has(s.active.w, n) && 0 <= j && j < len(s.active.w[n])) ==> chlen(s.active.w[n][j].ready) == 1
 //@   ensures [C13 apply.err-only-from-flush] err != nil ==> cacheWrites == old(cacheWrites) + 1
 //@   ensures [C12,C19 apply.no-additions] forall n string :: has(s.active.m, n) ==> old(has(s.active.m, n))
 //@   ensures [C11 apply.installs] forall n string :: (has(updates, n) && updates[n] != nil) ==> (has(s.active.m, n) && s.active.m[n].Secret == updates[n])
@@ -177,6 +167,11 @@ package setec
 //@     invariant [installed] forall n string :: (visited(n) && updates[n] != nil) ==> (has(s.active.m, n) && s.active.m[n].Secret == updates[n])
 //@     invariant [kept] forall n string :: (has(s.active.m, n) && !(visited(n) && updates[n] != nil)) ==> s.active.m[n].Secret == old(s.active.m[n].Secret)
 //@     invariant [pending] forall n string :: (has(updates, n) && !visited(n)) ==> has(s.active.m, n)
+//@     invariant [C15 notified] forall n string, j int :: (visited(n) && updates[n] != nil && has(s.active.w, n) && 0 <= j && j < len(s.active.w[n])) ==> chlen(s.active.w[n][j].ready) == 1
+//@   loop 1
+//@     invariant [chans] chansOK(s)
+//@     invariant [C15 notified-so-far] forall j int :: (0 <= j && j < iter) ==> chlen(s.active.w[name][j].ready) == 1
+//@     invariant [C15 notified-earlier] forall n string, j int :: (n != name && visited(n) && updates[n] != nil && has(s.active.w, n) && 0 <= j && j < len(s.active.w[n])) ==> chlen(s.active.w[n][j].ready) == 1
 
 //@ func (*Store).Refresh$1() (v, err)
 //@   requires storeInv(s) && !s.active.Mutex && s.client != nil && ctx != nil
@@ -232,6 +227,7 @@ package setec
 
 //@ func (StoreConfig).secretNames(c) (sec, svs, err)
 //@   loop 0
+//@     invariant [bound] 0 <= iter && iter <= len(c.Structs)
 //@     invariant [svs-nonnil] forall j int :: (0 <= j && j < len(svs)) ==> svs[j] != nil
 //@     invariant [same-when-no-structs] iter == 0 ==> len(sec) == len(c.Secrets)
 //@     invariant [prefix] len(sec) >= len(c.Secrets) && (forall i int :: (0 <= i && i < len(c.Secrets)) ==> sec[i] == c.Secrets[i])
@@ -292,7 +288,7 @@ package setec
 //@     invariant [fields-nonnil] forall j int :: (0 <= j && j < len(structs)) ==> structs[j] != nil
 
 // others' values are never touched by populating a struct (access stamps may change)
-//@ pred valuesKept(s *Store) { forall n string :: old(has(s.active.m, n)) ==> (has(s.active.m, n) && s.active.m[n].Secret == old(s.active.m[n].Secret)) }
+//@ pred valuesKept(s *Store) { forall n string :: old(has(s.active.m, n)) ==> (has(s.active.m, n) && s.active.m[n] == old(s.active.m[n]) && s.active.m[n].Secret == old(s.active.m[n].Secret) && s.active.m[n].Declared == old(s.active.m[n].Declared)) }
 //@ func (fieldInfo).apply(f, ctx, s, fullName) (err)
 //@   requires storeInv(s) && !s.active.Mutex && ctx != nil && s.client != nil
 //@   ensures [C12,C20 fapply.inv] storeInv(s) && !s.active.Mutex && handlesKept(s) && valuesKept(s)
@@ -309,3 +305,56 @@ package setec
 //@     invariant [errs-nonnil] forall j int :: (0 <= j && j < len(errs)) ==> errs[j] != nil
 //@     progress [C20 apply.failure-recorded] call_apply == nil || len(errs) == iterstart(len(errs)) + 1
 //@ loopexits [C20 apply.no-early-exit] (*Fields).Apply loop 0 == 1
+
+// ---- polling task, refresh ----------------------------------------------------------------
+//@ func (*Store).Refresh(s, ctx) (err)
+//@   requires s != nil && ctx != nil && storeInv(s) && !s.active.Mutex
+//@   ensures [C12 refreshcall.inv] storeInv(s) && !s.active.Mutex && sameEntries(s) && handlesKept(s)
+//@ callers [C11,C19 poll-only-in-singleflight] (*client/setec.Store).poll only-from (*client/setec.Store).Refresh$1
+//@ callers [C11,C19 apply-only-in-singleflight] (*client/setec.Store).applyUpdates only-from (*client/setec.Store).Refresh$1
+//@ callers [C11 refresh-closure-only-via-dochan] (*client/setec.Store).Refresh$1 only-from (*client/setec.Store).Refresh (value)
+//@ callers [C16 lookup-closure-only-via-do] (*client/setec.Store).lookupSecretInternal$1 only-from (*client/setec.Store).lookupSecretInternal (value)
+// A-interval: a poll interval of at least 5ns (below that 2*interval/10 is 0 and rand.Intn panics)
+//@ func (*Store).run(s, ctx, interval, done)
+//@   requires s != nil && storeInv(s) && !s.active.Mutex && ctx != nil && done != nil && s.newTicker != nil && interval >= 5
+//@   interference at Refresh writers (*client/setec.Store).Refresh$1 assume storeInv(s) && !s.active.Mutex && cacheWrites >= old(cacheWrites)
+//@   ensures [C13 run.flush-on-shutdown] s.cache != nil ==> cacheWrites >= old(cacheWrites) + 1
+//@   ensures [C11,C13 run.stops-only-on-cancel] chanFired(doneChan(ctx))
+//@   at call newTicker: assert [C11 run.period-within-10pct] arg_d >= interval - interval / 10 && arg_d < interval + (2 * interval) / 10 - interval / 10
+//@   loop 0
+//@     invariant [state] s != nil && !s.active.Mutex && ctx != nil
+//@     invariant [inv] storeInv(s)
+//@     invariant [writes] cacheWrites >= old(cacheWrites)
+
+// ---- watchers ------------------------------------------------------------------------------
+//@ func (watcher).notify(w)
+//@   requires w.ready != nil && chcap(w.ready) == 1 && chlen(w.ready) >= 0 && chlen(w.ready) <= 1
+//@   ensures [C15 notify.slot-full] chlen(w.ready) == 1
+//@   ensures [C15 notify.never-blocks] waits == old(waits)
+//@   ensures [C15 notify.others-untouched] forall c ref :: c != ref(w.ready) ==> chlen(c) == old(chlen(c))
+//@ func (*Store).lookupWatcher(s, ctx, name) (w, err)
+//@   requires storeInv(s) && !s.active.Mutex && ctx != nil && s.client != nil
+//@   ensures [C16 watcher.gate] (!old(has(s.active.m, name)) && !s.allowLookup) ==> (err != nil && net == old(net) && sameEntries(s))
+//@   ensures [C15 watcher.registered] err == nil ==> (w.ready != nil && fresh(w.ready) && chcap(w.ready) == 1 && chlen(w.ready) == 0 && has(s.active.w, name) && has(s.active.f, name) && w.Secret != nil &&
+//@        len(s.active.w[name]) == old(len(s.active.w[name])) + 1 && s.active.w[name][len(s.active.w[name]) - 1].ready == w.ready)
+//@   ensures [C12 watcher.unlocked] !s.active.Mutex
+
+// ---- file client construction ---------------------------------------------------------------
+//@ func NewFileClient(path) (fc, err)
+//@   ensures [C09,C13 newfileclient.versions-nonzero] err == nil ==> (fc != nil && fc.db != nil && (forall n string :: has(fc.db, n) ==> (fc.db[n] != nil && fc.db[n].Version != 0 && n != "")))
+//@   loop 0
+//@     invariant [db] db != nil && allocated(db) && (forall n string :: has(db, n) ==> (db[n] != nil && db[n].Version != 0 && n != ""))
+
+// ---- network client -------------------------------------------------------------------------
+//@ func do(ctx, c, path, req) (resp, err)
+//@   ensures [C09 do.sentinels] (httpCalls == old(httpCalls) + 1 && lastDoErr == nil && lastReadErr == nil) ==> ((lastStatus == 404 ==> err == api.ErrNotFound) && (lastStatus == 403 ==> err == api.ErrAccessDenied) && (lastStatus == 304 ==> err == api.ErrValueNotChanged))
+//@   ensures [C09 do.other-status] (httpCalls == old(httpCalls) + 1 && lastDoErr == nil && lastStatus != 200 && lastStatus != 404 && lastStatus != 403 && lastStatus != 304) ==>
+//@        (err != nil && err != api.ErrNotFound && err != api.ErrAccessDenied && err != api.ErrValueNotChanged)
+//@   ensures [C09 do.one-request] httpCalls == old(httpCalls) || httpCalls == old(httpCalls) + 1
+//@   ensures [C09 do.sentinel-only-from-status] (err == api.ErrNotFound ==> (httpCalls == old(httpCalls) + 1 && lastDoErr == nil && lastStatus == 404)) && (err == api.ErrAccessDenied ==> (httpCalls == old(httpCalls) + 1 && lastDoErr == nil && lastStatus == 403)) && (err == api.ErrValueNotChanged ==> (httpCalls == old(httpCalls) + 1 && lastDoErr == nil && lastStatus == 304))
+//@   at call Set: assert [C08 do.headers] (arg_key == "Content-Type" && arg_value == "application/json") || (arg_key == "Sec-X-Tailscale-No-Browsers" && arg_value == "setec")
+//@ func (Client).GetIfChanged(c, ctx, name, oldVersion) (sv, err)
+//@   at call Get: assert [C09 clientgic.zero-is-get] oldVersion == 0 && arg_name == name
+//@   at call do: assert [C09 clientgic.conditional-request] oldVersion != 0 && arg_req.Name == name && arg_req.Version == oldVersion && arg_req.UpdateIfChanged && arg_path == "/api/get"
+//@ func (Client).Get(c, ctx, name) (sv, err)
+//@   at call do: assert [C09 clientget.request] arg_req.Name == name && arg_req.Version == 0 && !arg_req.UpdateIfChanged && arg_path == "/api/get"
